@@ -18,9 +18,9 @@ type ForceCase struct {
 	// ProjDir names the directory holding the spokfile ("" = proj)
 	ProjDir string `json:"proj_dir,omitempty"`
 	// Invoke: how spok is pointed at the project (sandbox.Box.Invoke)
-	Invoke  string   `json:"invoke,omitempty"`
+	Invoke string `json:"invoke,omitempty"`
 	// Outputs: "files" = standard output and error are regular files (sandbox.Box.FileOutputs)
-	Outputs string `json:"outputs,omitempty"`
+	Outputs string   `json:"outputs,omitempty"`
 	NTasks  int      `json:"ntasks"`
 	Deps    [][2]int `json:"deps"`     // i depends on j (j > i)
 	FileDep []bool   `json:"file_dep"` // per task
